@@ -129,7 +129,7 @@ def run(prop, tier, seed):
                 sc["tree"]["p.diff"] = ("R", 0o644, t_)
     res, b2, m2 = l2_family(run_, exe, combined, lambda s, r: None, cls=lambda s, r: "combined exit %d" % r["exit"], label="C11")
     import wide
-    wb, wm = wide.wide_family(run_, exe, rng, 150 if tier == "quick" else 3000, prop="C11")
+    wb, wm = wide.wide_family(run_, exe, rng, 300 if tier == "quick" else 4000, prop="C11")
     m2 = m2 + wm
     l2bad = list(b2)
     for sc, r in zip(combined, res):
